@@ -22,7 +22,12 @@ pub fn check(tape: &[u32]) -> CheckResult {
     let mut t = Tape::new(tape);
     let s = build_sprite(&mut t, &cfg());
     let plan = build_plan(&mut t);
-    let enc = encode(&s, &plan);
+    let mut enc = encode(&s, &plan);
+    // a quarter of the sprites carry non-zero values in the cels' reserved / z-index bytes: everything compared here
+    // is per cel (coordinates, emptiness, offset, image of the cel alone), none of it depends on draw order
+    if tape.len() % 4 == 1 {
+        crate::encode::junk_zindex(&mut enc, &mut crate::encode::Rng(tape.len() as u64 * 77 + 5));
+    }
     let detail = |extra: serde_json::Value| json!({"model": super::c01::summarize(&s), "plan": format!("{:?}", plan), "input_hex": if enc.bytes.len() < 8000 { hex(&enc.bytes) } else { String::new() }, "where": extra});
     let f = AsepriteFile::read(&enc.bytes[..]).map_err(|e| Failure::new("load-error", format!("well-formed file failed to load: {}", e)).with(detail(json!(null))))?;
     let mut nontrivial = false;
